@@ -631,11 +631,13 @@ def _propagate_copies(fn):
     params = {a.arg for a in fn.args.args + fn.args.kwonlyargs + fn.args.posonlyargs}
     stable = {p for p in params if p not in stored}
     env = {}
+    dict_env = {}        # single-use dict displays, expanded where they are splatted as **name
+    uses = _name_uses(fn)
     changed = True
     while changed:
         changed = False
         for n, v in sa.items():
-            if n in env:
+            if n in env or n in dict_env:
                 continue
             if _copyable(v, stable | set(env), stored_attrs):
                 env[n] = v
@@ -643,7 +645,11 @@ def _propagate_copies(fn):
             elif isinstance(v, ast.Tuple) and all(_copyable(x, stable | set(env), stored_attrs) for x in v.elts):
                 env[n] = v
                 changed = True
-    if not env:
+            elif isinstance(v, ast.Dict) and v.keys and all(isinstance(k, ast.Constant) and isinstance(k.value, str) for k in v.keys) \
+                    and all(_copyable(x, stable | set(env), stored_attrs) for x in v.values) and uses.get(n, (0, 0))[1] == 1:
+                dict_env[n] = v
+                changed = True
+    if not env and not dict_env:
         return 0
     count = [0]
 
@@ -678,6 +684,15 @@ def _propagate_copies(fn):
                 else:
                     new_args.append(a)
             c.args = new_args
+            kws = []
+            for k in c.keywords:
+                if k.arg is None and isinstance(k.value, ast.Name) and k.value.id in dict_env:
+                    d = dict_env[k.value.id]
+                    kws.extend(ast.keyword(arg=x.value, value=copy.deepcopy(v)) for x, v in zip(d.keys, d.values))
+                    count[0] += 1
+                else:
+                    kws.append(k)
+            c.keywords = kws
             self.generic_visit(c)
             return c
 
@@ -729,6 +744,178 @@ def _inline_adjacent_single_use(stmts, uses):
     return out, changed
 
 
+def _module_const_tuples(tree):
+    """Module-level `NAME = (<literals>)` that is bound once and never mutated: name -> list of constant nodes."""
+    out = {}
+    stores = {}
+    for n in ast.walk(tree):
+        if isinstance(n, ast.Name) and isinstance(n.ctx, (ast.Store, ast.Del)):
+            stores[n.id] = stores.get(n.id, 0) + 1
+    for n in tree.body:
+        if isinstance(n, ast.Assign) and len(n.targets) == 1 and isinstance(n.targets[0], ast.Name) and isinstance(n.value, (ast.Tuple, ast.List)) \
+                and n.value.elts and all(isinstance(e, ast.Constant) and isinstance(e.value, (str, int)) for e in n.value.elts):
+            name = n.targets[0].id
+            if stores.get(name) == 1:
+                out[name] = list(n.value.elts)
+    # a mutating use (NAME.append, NAME[i] = ...) disqualifies
+    for n in ast.walk(tree):
+        if isinstance(n, ast.Attribute) and isinstance(n.value, ast.Name) and n.value.id in out and n.attr in ("append", "extend", "insert", "pop", "remove", "sort", "reverse", "clear"):
+            out.pop(n.value.id, None)
+        if isinstance(n, ast.Subscript) and isinstance(n.ctx, (ast.Store, ast.Del)) and isinstance(n.value, ast.Name) and n.value.id in out:
+            out.pop(n.value.id, None)
+    return out
+
+
+class _ConstSubst(ast.NodeTransformer):
+    def __init__(self, name, const):
+        self.name, self.const = name, const
+
+    def visit_Name(self, n):
+        if n.id == self.name and isinstance(n.ctx, ast.Load):
+            return ast.copy_location(copy.deepcopy(self.const), n)
+        return n
+
+
+def _static_expand(fn, consts):
+    """Loops and comprehensions over a module-level constant tuple are unrolled; getattr/setattr with a literal name become
+    attribute accesses; `**{'k': v, ...}` becomes keywords.  (What a table-driven save/load does, written out.)"""
+    changed = [0]
+
+    def unroll_stmts(stmts):
+        out = []
+        for s in stmts:
+            if isinstance(s, (ast.FunctionDef, ast.AsyncFunctionDef, ast.ClassDef)):
+                out.append(s)
+                continue
+            for fld in ("body", "orelse", "finalbody"):
+                if hasattr(s, fld) and isinstance(getattr(s, fld), list):
+                    setattr(s, fld, unroll_stmts(getattr(s, fld)))
+            if isinstance(s, ast.Try):
+                for h in s.handlers:
+                    h.body = unroll_stmts(h.body)
+            if isinstance(s, ast.For) and isinstance(s.iter, ast.Name) and s.iter.id in consts and isinstance(s.target, ast.Name) and not s.orelse \
+                    and not any(isinstance(x, (ast.Break, ast.Continue)) for x in ast.walk(s)) \
+                    and not any(isinstance(x, ast.Name) and x.id == s.target.id and isinstance(x.ctx, ast.Store) for b in s.body for x in ast.walk(b)):
+                for c in consts[s.iter.id]:
+                    for b in s.body:
+                        out.append(_ConstSubst(s.target.id, c).visit(copy.deepcopy(b)))
+                changed[0] += 1
+                continue
+            out.append(s)
+        return out
+
+    class E(ast.NodeTransformer):
+        def comp(self, n, make):
+            self.generic_visit(n)
+            if len(n.generators) == 1 and not n.generators[0].ifs and not n.generators[0].is_async and isinstance(n.generators[0].iter, ast.Name) \
+                    and n.generators[0].iter.id in consts and isinstance(n.generators[0].target, ast.Name):
+                g = n.generators[0]
+                changed[0] += 1
+                return self.visit(ast.copy_location(make([c for c in consts[g.iter.id]], g.target.id), n))
+            return n
+
+        def visit_DictComp(self, n):
+            return self.comp(n, lambda cs, v: ast.Dict(keys=[_ConstSubst(v, c).visit(copy.deepcopy(n.key)) for c in cs],
+                                                       values=[_ConstSubst(v, c).visit(copy.deepcopy(n.value)) for c in cs]))
+
+        def visit_ListComp(self, n):
+            return self.comp(n, lambda cs, v: ast.List(elts=[_ConstSubst(v, c).visit(copy.deepcopy(n.elt)) for c in cs], ctx=ast.Load()))
+
+        def visit_Call(self, c):
+            self.generic_visit(c)
+            f = c.func
+            if isinstance(f, ast.Name) and f.id == "getattr" and len(c.args) == 2 and not c.keywords and isinstance(c.args[1], ast.Constant) \
+                    and isinstance(c.args[1].value, str) and c.args[1].value.isidentifier():
+                changed[0] += 1
+                return ast.copy_location(ast.Attribute(value=c.args[0], attr=c.args[1].value, ctx=ast.Load()), c)
+            kws = []
+            for k in c.keywords:
+                if k.arg is None and isinstance(k.value, ast.Dict) and all(isinstance(x, ast.Constant) and isinstance(x.value, str) for x in k.value.keys):
+                    kws.extend(ast.keyword(arg=x.value, value=v) for x, v in zip(k.value.keys, k.value.values))
+                    changed[0] += 1
+                else:
+                    kws.append(k)
+            c.keywords = kws
+            return c
+
+        def visit_FunctionDef(self, n):
+            return n
+
+        visit_Lambda = visit_ClassDef = visit_AsyncFunctionDef = visit_FunctionDef
+
+    # local table: a single-assignment tuple display of rows built from constants and names the function never rebinds
+    from .model import single_assignments
+    stored_names = {n.id for n in ast.walk(fn) if isinstance(n, ast.Name) and isinstance(n.ctx, (ast.Store, ast.Del))}
+    stored_names |= {a.arg for a in fn.args.args + fn.args.kwonlyargs}
+
+    def stable_expr(x):
+        if isinstance(x, ast.Constant):
+            return True
+        if isinstance(x, ast.Name):
+            return x.id not in stored_names
+        if isinstance(x, ast.Attribute):
+            return stable_expr(x.value)
+        if isinstance(x, (ast.Tuple, ast.List)):
+            return all(stable_expr(y) for y in x.elts)
+        return False
+    local_tables = {}
+    for name, v in single_assignments(fn, in_loops=False, loose=True).items():
+        if isinstance(v, ast.Tuple) and v.elts and stable_expr(v) and all(isinstance(r, (ast.Tuple, ast.Constant, ast.Name, ast.Attribute)) for r in v.elts):
+            local_tables[name] = list(v.elts)
+
+    def unroll_table_loops(stmts):
+        out = []
+        for s_ in stmts:
+            if isinstance(s_, (ast.FunctionDef, ast.AsyncFunctionDef, ast.ClassDef)):
+                out.append(s_)
+                continue
+            for fld in ("body", "orelse", "finalbody"):
+                if hasattr(s_, fld) and isinstance(getattr(s_, fld), list):
+                    setattr(s_, fld, unroll_table_loops(getattr(s_, fld)))
+            if isinstance(s_, ast.For) and isinstance(s_.iter, ast.Name) and s_.iter.id in local_tables and not s_.orelse \
+                    and not any(isinstance(x, (ast.Break, ast.Continue)) for x in ast.walk(s_)):
+                rows = local_tables[s_.iter.id]
+                tg = s_.target
+                names = [tg.id] if isinstance(tg, ast.Name) else [e_.id for e_ in tg.elts] if isinstance(tg, (ast.Tuple, ast.List)) and all(isinstance(e_, ast.Name) for e_ in tg.elts) else None
+                rebinding = names is None or any(isinstance(x, ast.Name) and x.id in names and isinstance(x.ctx, ast.Store) for b in s_.body for x in ast.walk(b))
+                shapes_ok = names is not None and all((len(names) == 1 and isinstance(tg, ast.Name)) or (isinstance(r, ast.Tuple) and len(r.elts) == len(names)) for r in rows)
+                if not rebinding and shapes_ok:
+                    for r in rows:
+                        vals = [r] if isinstance(tg, ast.Name) else list(r.elts)
+                        for b in s_.body:
+                            nb = copy.deepcopy(b)
+                            for nm, val in zip(names, vals):
+                                nb = _ConstSubst(nm, val).visit(nb)
+                            out.append(nb)
+                    changed[0] += 1
+                    continue
+            out.append(s_)
+        return out
+    if local_tables:
+        fn.body = unroll_table_loops(fn.body)
+    fn.body = unroll_stmts(fn.body)
+    e = E()
+    fn.body = [e.visit(s_) for s_ in fn.body]
+    # setattr(obj, 'lit', v) as a statement
+    def fix_setattr(stmts):
+        out = []
+        for s_ in stmts:
+            for fld in ("body", "orelse", "finalbody"):
+                if hasattr(s_, fld) and isinstance(getattr(s_, fld), list) and not isinstance(s_, (ast.FunctionDef, ast.ClassDef)):
+                    setattr(s_, fld, fix_setattr(getattr(s_, fld)))
+            if isinstance(s_, ast.Expr) and isinstance(s_.value, ast.Call) and isinstance(s_.value.func, ast.Name) and s_.value.func.id == "setattr" \
+                    and len(s_.value.args) == 3 and isinstance(s_.value.args[1], ast.Constant) and isinstance(s_.value.args[1].value, str) \
+                    and s_.value.args[1].value.isidentifier():
+                a = s_.value.args
+                out.append(ast.copy_location(ast.Assign(targets=[ast.Attribute(value=a[0], attr=a[1].value, ctx=ast.Store())], value=a[2]), s_))
+                changed[0] += 1
+            else:
+                out.append(s_)
+        return out
+    fn.body = fix_setattr(fn.body)
+    return changed[0]
+
+
 def _name_uses(fn):
     """name -> (number of stores, number of loads) over the whole function (nested scopes included, conservatively)."""
     st, ld = {}, {}
@@ -747,9 +934,12 @@ def normalize(tree):
     inl = Inliner(tree)
     n = inl.run()
     tree._inlined_helpers = set(inl.inlined_names)
+    consts = _module_const_tuples(tree)
     for node in ast.walk(tree):
         if isinstance(node, ast.FunctionDef) and not _is_njit(node):
             node.body = _split_simple_statements(node.body)
+            if consts:
+                _static_expand(node, consts)
             if all(_is_bare_return(r) for r in ast.walk(node) if isinstance(r, ast.Return)) and \
                     not any(isinstance(x, (ast.FunctionDef, ast.Lambda)) and x is not node for x in ast.walk(node)):
                 node.body = _eliminate_early_returns(node.body)
@@ -760,6 +950,7 @@ def normalize(tree):
                 node.body, c = _inline_adjacent_single_use(node.body, _name_uses(node))
                 if not c:
                     break
+            _static_expand(node, consts)      # getattr(x, 'lit') / **{...} exposed by the propagation
     # a private helper whose every use was inlined is dead for the analysis: its body is judged where it now runs
     dropped = set()
     for name in sorted(tree._inlined_helpers):
